@@ -617,6 +617,10 @@ func (envs *Manager) TeardownEnvironment(environmentId uid.ID, force bool) error
 		return errors.New(fmt.Sprintf("cannot teardown environment in state %s", env.CurrentState()))
 	}
 
+	// A run ended by this teardown must not be stopped a second time by its auto stop timer,
+	// which would push the destroyed environment from DONE to ERROR.
+	env.invalidateAutoStopTransition()
+
 	the.EventWriterWithTopic(topic.Environment).WriteEvent(&evpb.Ev_EnvironmentEvent{
 		EnvironmentId:        environmentId.String(),
 		State:                env.CurrentState(),
